@@ -1,11 +1,12 @@
 #!/bin/sh
 # Re-run every kept seeded change against the check that reports it (meta.json detected_by.check, normally the
-# check of its own property; quick tier); one line each: <name> <rc> <how the patch applied>.
+# check of its own property; quick tier); one line each: <name> <rc> <how the patch applied> [not-detected: kept as a known gap].
 cd "$(dirname "$0")/.." || exit 2
 for d in seeded/${2:-C}*; do
   n=$(basename $d)
   p=$(python3 -c "import json,sys; m=json.load(open('$d/meta.json')); print((m.get('detected_by') or {}).get('check') or '$n'[:3])")
+  nd=$(python3 -c "import json,sys; m=json.load(open('$d/meta.json')); print('not-detected' if m.get('not_detected') else '')")
   out=$(python3 tools/mutant.py run $d $p quick ${1:-0})
   rc=$(printf '%s' "$out" | python3 -c "import sys,json; d=json.loads(sys.stdin.read()); print(d.get('rc'), d.get('applies'))")
-  echo "$n $rc"
+  echo "$n $rc $nd"
 done
